@@ -78,26 +78,26 @@ func captureFlow(w *fix.World, id *fix.Identity, hidden bool, dropFromServer fun
 
 func genC19(r *vh.Runner) {
 	// (a) client hellos leave no state
-	floods := r.Pick(4, 600)
+	floods := r.Pick(4, 2000)
 	for f := 0; f < floods; f++ {
 		r.Case(fmt.Sprintf("hello-flood/%d", f), map[string]any{"flood": f}, func(c *vh.Case) {
 			c.Bubble(func() { helloFlood(r, c, f) })
 		})
 	}
 	// (b) cookie binding
-	acks := r.Pick(8, 3000)
+	acks := r.Pick(8, 20000)
 	for a := 0; a < acks; a++ {
 		r.Case(fmt.Sprintf("cookie/%d", a), map[string]any{"rep": a}, func(c *vh.Case) {
 			c.Bubble(func() { cookieBinding(r, c, a) })
 		})
 	}
 	// (d) post-dated hidden requests
-	pd := r.Pick(6, 1500)
+	pd := r.Pick(6, 10000)
 	for h := 0; h < pd; h++ {
 		r.Case(fmt.Sprintf("hidden-post-dated/%d", h), map[string]any{"rep": h}, func(c *vh.Case) { hiddenPostDated(r, c, h) })
 	}
 	// (c) hidden server silence
-	hid := r.Pick(6, 1500)
+	hid := r.Pick(6, 10000)
 	for h := 0; h < hid; h++ {
 		r.Case(fmt.Sprintf("hidden-silence/%d", h), map[string]any{"rep": h}, func(c *vh.Case) {
 			c.Bubble(func() { hiddenSilence(r, c, h) })
